@@ -119,6 +119,40 @@ def check(ctx):
         w = oracle_on(wire.dec_text(o[3:]), c) if o.startswith("ok ") else "str(f) raised " + o
         if w:
             ctx.violation("api-built value: " + w, c)
+    # a first render interrupted by an exception (KeyboardInterrupt from SIGINT at the k-th run) must not leave a
+    # partial terminal string behind: the next str(f) displays all of f
+    import curtsies.formatstring as _F
+    orig_str = _F.Chunk.__str__
+    n_int = 0
+    for c in cases[:: max(1, len(cases) // 150)] + api_cases[:60]:
+        if len(c) < 2 or any("\x1b" in t or "\x9b" in t for t, _ in c):
+            continue
+        for k in range(1, len(c) + 1):
+            f = mk_fmt(c)
+            count = [0]
+
+            def patched(self, _k=k, _count=count):
+                _count[0] += 1
+                if _count[0] == _k:
+                    raise KeyboardInterrupt
+                return orig_str(self)
+            _F.Chunk.__str__ = patched
+            try:
+                try:
+                    str(f)
+                except KeyboardInterrupt:
+                    pass
+            finally:
+                _F.Chunk.__str__ = orig_str
+            n_int += 1
+            try:
+                w = oracle_on(str(f), c)
+            except Exception as e:  # noqa: BLE001
+                w = "str(f) raised %r" % (e,)
+            ctx.count(("interrupted", k, c), nontrivial=True, tag="interrupted-render")
+            if w:
+                ctx.violation("after a render interrupted at run %d: %s" % (k, w), dict(chunks=c, interrupted_at_run=k))
+    ctx.note("interrupted-render cases: %d" % n_int)
     # cross-check the Python mirror of the SGR spec against the Lean spec (driver op `display`) and pyte
     sample = [wire.dec_text(o[3:]) for o in outs[::37] if o.startswith("ok ")]
     sample += ["\x1b[1;31;44mx\x1b[mz", "\x1b[38;5;1mq", "a\x1b[2Ab", "\x9b31mx", "\x1b[;my", "\x1bAz", "x\x1b[3"]
